@@ -154,6 +154,11 @@ class Execution:
     def _run(self, t0):
         if "op" in self.desc:
             return self._run_op(t0)
+        for pre in self.desc.get("prelude", ()):
+            # worlds that ran earlier in this process (their trees are finished and dropped): whatever they leave behind
+            # in the library - class attributes, module-level tables, memoised properties of reused objects - is still there
+            pw = World(pre, ())
+            pw.tree.run()
         w = World(self.desc, self.dev, shim=self.shim)
         self.w = w
         self.tree = tree = w.tree
